@@ -52,5 +52,5 @@ rlp_decode_len!(c18_rlp_decode_len2, 2);
 rlp_decode_len!(c18_rlp_decode_len3, 3);
 //@ name=c18_rlp_decode_len9 prop=C18,C11 tier=quick profile=k64 funcs="rlp::Decodable::decode for Uint" bound="U64: every 9-octet input (capacity)" free_bits=72
 rlp_decode_len!(c18_rlp_decode_len9, 9);
-//@ name=c18_rlp_decode_len10 prop=C18,C11 tier=quick profile=k64 funcs="rlp::Decodable::decode for Uint" bound="U64: every 10-octet input (one above capacity): never accepted" free_bits=80
+//@ name=c18_rlp_decode_len10 prop=C18,C11 tier=quick profile=k64 funcs="rlp::Decodable::decode for Uint" bound="U64: every 10-octet input (one above capacity): never accepted" free_bits=80 core=C11
 rlp_decode_len!(c18_rlp_decode_len10, 10);
